@@ -262,6 +262,10 @@ type e6Interp struct {
 	PureCall func(f *types.Func) bool
 	// Inline lets the interpreter evaluate a callee's body instead of treating the call as opaque.
 	Inline func(f *ssa.Function) bool
+	// OuterName, when set, names values defined outside the region (default: outerName, which uses SSA registers).
+	OuterName func(v ssa.Value) string
+	// MaxAtoms bounds the atoms of one region (default 14).
+	MaxAtoms int
 
 	env     map[ssa.Value]*Sym
 	mem     map[string]*Sym
@@ -332,7 +336,13 @@ func (e *e6Interp) val(v ssa.Value) *Sym {
 		return &Sym{Op: "fn", Name: "builtin." + x.Name(), Type: x.Type()}
 	}
 	// A value defined outside the region (e.g. before the loop): opaque, named by its SSA register.
-	s := &Sym{Op: "opaque", Name: e.outerName(v), Type: v.Type()}
+	name := ""
+	if e.OuterName != nil {
+		name = e.OuterName(v)
+	} else {
+		name = e.outerName(v)
+	}
+	s := &Sym{Op: "opaque", Name: name, Type: v.Type()}
 	e.env[v] = s
 	return s
 }
@@ -712,6 +722,9 @@ func (e *e6Interp) runRegion(start, pred *ssa.BasicBlock, stop map[*ssa.BasicBlo
 					if c := x.Comment; c != "" {
 						e.env[x].Name = "phi:" + c + ":" + x.Name()
 					}
+					if e.OuterName != nil {
+						e.env[x].Name = e.OuterName(x)
+					}
 					continue
 				}
 				for i, p := range b.Preds {
@@ -1087,8 +1100,12 @@ func e6Enumerate(mk func() *e6Interp, start, pred *ssa.BasicBlock, stop map[*ssa
 			return outs, und.why
 		}
 		if need != nil {
-			if len(j.assign) >= 14 {
-				return outs, "more than 14 atoms in one region"
+			maxAtoms := 14
+			if e.MaxAtoms > 0 {
+				maxAtoms = e.MaxAtoms
+			}
+			if len(j.assign) >= maxAtoms {
+				return outs, fmt.Sprintf("more than %d atoms in one region", maxAtoms)
 			}
 			for _, v := range []bool{false, true} {
 				na := map[string]bool{}
